@@ -210,14 +210,19 @@ fn search_c03(r: &mut Rng, iters: usize) -> bool {
             return false;
         }
         // two-bound = conjunction (only when the texts contain no operator chars, true by construction)
-        let two = Dewey::new(&format!("p>={}<{}", a, c)).ok().map(|d| d.matches(&format!("p-{}", b)));
-        let conj = match (dm(">=", &b, &a), dm("<", &b, &c)) {
-            (Some(x), Some(y)) => Some(x && y),
-            _ => None,
-        };
-        if two.is_some() && two != conj {
-            fail("two-bound", format!("two-bound={:?} conjunction={:?}", two, conj));
-            return false;
+        for (lo, hi) in [(">=", "<"), (">=", "<="), (">", "<"), (">", "<=")] {
+            // also with both bounds equal (c2 == a) and with the candidate equal to a bound
+            for (c2, b2) in [(&c, &b), (&a, &b), (&a, &a), (&c, &c)] {
+                let two = Dewey::new(&format!("p{}{}{}{}", lo, a, hi, c2)).ok().map(|d| d.matches(&format!("p-{}", b2)));
+                let conj = match (dm(lo, b2, &a), dm(hi, b2, c2)) {
+                    (Some(x), Some(y)) => Some(x && y),
+                    _ => None,
+                };
+                if two.is_some() && two != conj {
+                    fail("two-bound", format!("pattern p{}{}{}{} vs p-{}: two-bound={:?} conjunction={:?}", lo, a, hi, c2, b2, two, conj));
+                    return false;
+                }
+            }
         }
     }
     true
